@@ -385,10 +385,10 @@ def c11(out):
     run_sharded(out, exe, ["--prop", "C11", "--mode", "xbe"], "msan", n(out, 1200, 40000), label="msan-par")
     # long-lived CTR objects with calls of 64 KiB..1 MiB under MSan: every output byte of every call is shadow-tested
     exe = build_driver("drv_ctr", ["drv_ctr.c"] + HIST, "msan")
-    run_sharded(out, exe, ["--prop", "C11", "--mode", "marathon", "--marathon-ops", "2500", "--marathon-bigfreq", "200", "--case-timeout", "600"], "msan", 14 if out.tier == "quick" else 56, shards=14, label="msan-marathon")
+    run_sharded(out, exe, ["--prop", "C11", "--mode", "marathon", "--marathon-ops", "2000", "--marathon-bigfreq", "160", "--case-timeout", "600"], "msan", 9 if out.tier == "quick" else 54, shards=9, label="msan-marathon")
     # parallel-ECB calls of 4096 .. 70001 blocks under MSan with the output buffer pre-marked undefined
     exe = build_driver("drv_par", ["drv_par.c"] + HIST, "msan")
-    run_sharded(out, exe, ["--prop", "C11", "--mode", "big", "--case-timeout", "600"], "msan", 36 * 7, shards=12, label="msan-big-parallel")
+    run_sharded(out, exe, ["--prop", "C11", "--mode", "big", "--case-timeout", "600"], "msan", 36 * 3 if out.tier == "quick" else 36 * 8, shards=12, label="msan-big-parallel")
     exe = build_driver("drv_keys_vg", ["drv_keys.c"] + HIST, "prod", extra=["-DVH_VALGRIND"])
     run_sharded(out, exe, ["--prop", "C11", "--mode", "c11", "--case-timeout", "900"], "prod", n(out, 1600, 40000), label="memcheck-keys", wrapper=VG, timeout=3000)
     if out.tier == "thorough":
@@ -619,7 +619,7 @@ def c18(out):
     out.observed["positive_control_tsan_reported_deliberate_race"] = fired
     if not fired:
         out.inconclusive.append({"reason": "ThreadSanitizer positive control did not report the deliberate race"})
-    _thr_run(out, exe, "tsan", n(out, 240, 6000), "tsan")
+    _thr_run(out, exe, "tsan", n(out, 192, 6000), "tsan")
     _thr_first_init(out, exe, "tsan", n(out, 48, 600))
     if out.tier == "thorough":
         exe = build_driver("drv_thr", ["drv_thr.c"] + HIST, "tsanclang", libs=["-pthread"])
